@@ -69,7 +69,12 @@ impl<T> Receiver<T> {
     pub fn try_recv(&mut self) -> Result<Option<T>, ChannelClosed> {
         match self.rx.pop() {
             Ok(val) => Ok(Some(val)),
-            Err(_) if self.rx.is_abandoned() => Err(ChannelClosed),
+            // The producer may have pushed its last items between the failed `pop` and the
+            // moment it was dropped, so look once more before declaring the channel closed.
+            Err(_) if self.rx.is_abandoned() => match self.rx.pop() {
+                Ok(val) => Ok(Some(val)),
+                Err(_) => Err(ChannelClosed),
+            },
             Err(_) => Ok(None),
         }
     }
